@@ -264,3 +264,35 @@ PLANS["C13"] = {
                     "one-time key, LFSR states) are outside the pattern oracle; expanded key material is patterned "
                     "directly instead"],
 }
+
+
+def _c14(tier, seed):
+    return [
+        {"engine": "desc", "args": [], "cases": 1, "shards": N, "timeout": 3000},
+        # M-DESC / M-ERRNO are always on: feed them a schedule-fuzzer and a rejection workload as well
+        {"engine": "mix", "args": [], "cases": 6000 if tier == "quick" else 150000, "shards": N, "timeout": 3000},
+        {"engine": "ring", "args": [], "cases": 1500 if tier == "quick" else 60000, "shards": N, "timeout": 3000},
+        # error.c / validation / burst code under ASan+UBSan
+        {"engine": "desc", "args": [], "cases": 1, "shards": 4, "flavour": "asan", "timeout": 3000,
+         "env": {"ASAN_OPTIONS": "detect_leaks=0:handle_segv=0:allow_user_segv_handler=1:abort_on_error=1",
+                 "UBSAN_OPTIONS": "print_stacktrace=1:halt_on_error=1"}},
+    ]
+
+
+PLANS["C14"] = {
+    "level": "exploration",
+    "runs": _c14,
+    "cov_class": ["C14", "C04", "C05"],
+    "rule": ("cases = (a) descriptor snapshots: every job handed back in the template-reuse workload (every "
+             "suite x 12 or 40 re-submissions of one imb_set_session template through burst and job API, checked "
+             "and no-check), in schedule-fuzzer episodes and in ring histories is compared field by field with its "
+             "snapshot at submit (listed fields only) and its status must be final; (b) after every API call the "
+             "manager's error code is compared with the expectation of that call (0 / the call's own code); (c) "
+             "imb_get_strerror over [-70000,70000], powers of two +-1, INT_MIN/MAX and random 32-bit values "
+             "(non-NULL, terminated, library text for every library code); (d) the same under ASan+UBSan. distinct "
+             "= distinct (variant, suite) reuse cells + strerror texts + schedule states."),
+    "floors": {"quick": {"template_reuse_jobs": 5000, "strerror_calls": 300000, "desc_checks": 100000,
+                         "errno_checks": 300000}},
+    "assumptions": ["length fields of the descriptor are not compared (CMAC rewrites msg_len_to_hash into bits; the "
+                    "property does not list lengths)", "u.SNOW_V_AEAD.reserved is documented scratch space"],
+}
